@@ -279,6 +279,32 @@ def real_histories(run, rng, tier, viol):
                         viol("real_git_histories_at_a_final_tag", "adding commits (criss-cross merges on the first-parent chain of main) must yield a strictly greater version",
                              {"outputs": outs, "format": out, "history": "tag; side: b1; main: a1 | main merges side | side merges main, main merges side | main: a2"})
                         break
+        # commits after the tag whose committer dates are OLDER than the tagged commit's (clock skew, replayed or imported commits): every commit
+        # counts, whatever its date - growth along the chain and the bounds hold
+        bpaths = []
+        for k in (1, 2, 3):
+            pth = os.path.join(root, f"backdated{k}")
+            gitfx.build_repo(pth, [("commit", T), ("tag", final)] + [("commit", T - 86400 * (5 - j)) for j in range(min(k, 2))] + ([("commit", T + 500)] if k == 3 else []))
+            bpaths.append(pth)
+        for out in ("semver", "pep440"):
+            outs = []
+            for pth in bpaths:
+                rc, so, se = run_procs([(["flow", f"--output-format={out}"], None)], env={"TZ": "UTC"}, cwd=pth)[0]
+                run.evaluations += 1
+                st["runs"] += 1
+                outs.append(so.decode("utf-8", "replace").strip() if rc == 0 else None)
+            if None in outs:
+                viol("real_git_histories_at_a_final_tag", "flow fails on a history with back-dated commits", {"outputs": outs, "format": out})
+            else:
+                for o in outs:
+                    if not (lt(out, lo, o) and lt(out, o, hi)):
+                        viol("real_git_histories_at_a_final_tag", f"X.Y.Z < V < X.Y.(Z+1) violated in the {out} order after back-dated commits", {"outputs": outs, "low": lo, "high": hi})
+                        break
+                for a, b in zip(outs, outs[1:]):
+                    if not lt(out, a, b):
+                        viol("real_git_histories_at_a_final_tag", "adding commits (with committer dates older than the tag's) must yield a strictly greater version",
+                             {"outputs": outs, "format": out, "history": "tag; one, two back-dated commits; then one normally dated"})
+                        break
         # the base tag reaches HEAD only through the SECOND parent of a merge (a release tagged on its branch and merged --no-ff into a main
         # that moved on), with and without an older tag on the first-parent chain: the bounds are those of the reachable final tag
         older = f"v{X}.{Y}.{Z - 1}" if Z > 0 else (f"v{X}.{Y - 1}.5" if Y > 0 else f"v{X - 1}.0.0" if X > 0 else None)
@@ -336,5 +362,5 @@ RULE = ("requests are `zerv flow` runs (source none) with semver / pep440 text o
         "x post modes x hash lengths x the standard presets that print the pre-release; each output is compared with the model and judged by the PUBLIC "
         "orders of the formats implemented independently in Python (SemVer section 11; PEP 440 standard _cmpkey order): exactness at the tag, strict "
         "two-sided bound, strict growth with distance, fixed point at flow-shaped pre-release tags; the same laws on 40 real repositories through the binary "
-        "(final tag alone or sharing its commit with pre-release tags; clean / staged / modified / untracked / ahead on main, feature, release, develop; the tag reached only through the second parent of a merge; the checkout at the tag under --distance / --dirty overrides); "
+        "(final tag alone or sharing its commit with pre-release tags; clean / staged / modified / untracked / ahead on main, feature, release, develop; the tag reached only through the second parent of a merge; commits after the tag dated before it; the checkout at the tag under --distance / --dirty overrides); "
         "non-trivial = output carries a pre-release/post/dev part")
